@@ -24,6 +24,7 @@ import (
 type chunkReader struct {
 	data []byte
 	cuts []int
+	eofWithData bool // the transport hands its LAST bytes over together with io.EOF (allowed by io.Reader; QUIC FIN, some adapters)
 }
 
 func (c *chunkReader) Read(p []byte) (int, error) {
@@ -49,6 +50,9 @@ func (c *chunkReader) Read(p []byte) (int, error) {
 	}
 	copy(p, c.data[:k])
 	c.data = c.data[k:]
+	if c.eofWithData && len(c.data) == 0 {
+		return k, io.EOF
+	}
 	return k, nil
 }
 
@@ -90,6 +94,7 @@ type caseIn struct {
 	Wire string  `json:"wire"`
 	Cuts []int   `json:"cuts"`
 	Big  bool    `json:"big"` // do not echo bodies (large case; Go-side predicate only)
+	EOFData bool `json:"eofdata,omitempty"` // pk/raw: the transport returns its last bytes together with io.EOF
 }
 type obs struct {
 	Ok   bool   `json:"ok"`
@@ -114,8 +119,10 @@ type caseOut struct {
 
 func isJSONType(t byte) bool { return packet.Type(t).IsJsonCommand() || packet.Type(t).IsCommandResp() }
 
+var eofWithDataMode bool // set around a case by runCase1 (caseIn.EOFData)
+
 func readAll(wire []byte, cuts []int, big bool) ([]obs, []*packet.TransferPacket) {
-	r := &chunkReader{data: wire, cuts: append([]int(nil), cuts...)}
+	r := &chunkReader{data: wire, cuts: append([]int(nil), cuts...), eofWithData: eofWithDataMode}
 	sp := stream.NewStreamProcessor(r, io.Discard, context.Background())
 	defer sp.Close()
 	var out []obs
@@ -250,6 +257,8 @@ func runCase(raw json.RawMessage) (res interface{}) {
 func runCase1(raw json.RawMessage) interface{} {
 	var c caseIn
 	must(json.Unmarshal(raw, &c))
+	eofWithDataMode = c.EOFData
+	defer func() { eofWithDataMode = false }()
 	out := &caseOut{PropOK: true}
 	var wire []byte
 	switch c.Mode {
@@ -387,7 +396,8 @@ func runCase1(raw json.RawMessage) interface{} {
 		wire = unhx(c.Wire)
 		obsv, _ := readAll(wire, c.Cuts, c.Big)
 		out.Obs = obsv
-		// chunk independence evaluated directly on the implementation: one-shot delivery must agree
+		// chunk independence evaluated directly on the implementation: one-shot delivery (end of stream reported separately) must agree
+		eofWithDataMode = false
 		ref, _ := readAll(wire, nil, c.Big)
 		if !sameObs(obsv, ref) {
 			out.PropOK = false
